@@ -1,4 +1,5 @@
 import VelaVerif.Lemmas.SchedMem
+import VelaVerif.Lemmas.SchedLive
 import VelaVerif.Spec.SchedMem
 /-!
 # C12 / C02 — what the scheduler assumes a schedule needs is what the schedule really needs
@@ -151,6 +152,91 @@ theorem dedicated_sram_cascade_within_limit (b : Builder) (ref fb : CostMap) (li
   have hinv := buildCascadesFrom_inv [] b ref fb limit st hu (by intro p _ c _ v hv; simp at hv) h
   obtain ⟨l, first, _, _, _, _, _, _, h7⟩ := (hinv.good ci hci).ex
   exact h7 hs
+
+/-! ## (a) the bridge to the live ranges
+
+`Linked ref none l (x0, steps)` relates the chain `l` of the builder to the tensors the live-range extraction sees for the
+same operations: `x0` the IFM tensor of the first operation, per operation its OFM tensor, its buffered weight tensors
+(`sum storage_size()` = the weight buffers of the cost map) and the size `extract_live_ranges_from_schedule` gives the rolling
+buffer of its IFM (`cascade_info.buffers[op].elements() * dtype size` = the size the builder computed for the pair).
+`cascadeSchedule k x0 steps` is the `Model/LiveRange.lean` schedule of exactly these operations, all members of cascade `k`
+(`Lemmas/SchedLive.lean`); `extractNpu` is the model of `extract_live_ranges_from_schedule`, equal to the real function on
+every compiled network (design.d/LiveRange.md); `graphUsage g t` is the sum of the sizes of the ranges of `g` alive at `t`. -/
+
+/-- **cascade_liverange_usage.**  The live ranges extracted for a cascade on its own: all its operations get the time index
+    the walk starts with, and the bytes in use at that index are: the first IFM (if it lies in the target memory) + the weight
+    buffers + the *rolling buffer sizes* of the intermediate feature maps (not their full sizes: `set_buffer_size` replaces the
+    size of the range the producer created) + the last OFM (if it lies in the target memory). -/
+theorem cascade_liverange_usage (k ct : Nat) (hk : k ≠ 0) (x0 : LiveRange.Tensor) (steps : List Step) (hg : GoodTensors x0 steps) :
+    ∃ res, LiveRange.extractNpu (cascadeSchedule k x0 steps) LiveRange.Graph.empty ct = .ok res ∧
+      res.times = steps.map (fun _ => ct) ∧ graphUsage res.graph ct = chainUsage true x0 steps :=
+  extract_cascade k ct hk x0 steps hg
+
+/-- **cascade_estimate_covers_liverange_peak (a).**  For every cascade `build_cascades` accepts there is the chain `l` of its
+    operations such that, for every live-range view `(x0, steps)` of that chain (`Linked`) with distinct feature-map tensors
+    (`GoodTensors`) whose first IFM and last OFM are no larger than the builder's `ifm_size_in_bytes()` / `ofm_size_in_bytes()`
+    (Dedicated SRAM: lie outside the target memory), the live ranges `Model/LiveRange.lean` extracts for these operations need,
+    at the cascade's time index, no more than the builder attributed to the cascade:
+    `usage + non_local(first) ≤ mem_usage + non_local(first)` (Dedicated SRAM: `usage ≤ mem_usage + non_local(first) ≤ limit`).
+    Scope: the cascade on its own.  What else is alive at that index in the whole schedule is the non-local usage; that the
+    value the scheduler adds for it (`memory_snapshot[t] - op_mem_usage` of the Min schedule, resp. `snapshot[t] - mem_usage` in
+    `optimize_sub_schedule`) covers it is validated on the real values of every compilation (`smest`), not proved. -/
+theorem cascade_estimate_covers_liverange_peak (b : Builder) (ref fb : CostMap) (limit : Int) (st : BState) (hu : UniqueIdx b.ops)
+    (h : buildCascades b ref fb limit = .ok st) :
+    ∀ ci ∈ st.cascades, ∃ (l : List SOp) (first : SOp),
+      RChain b.ops l ∧ l.head? = some first ∧ first.index = ci.start ∧ ci.end_ = ci.start + (l.length - 1) ∧
+      ∀ (k ct : Nat) (x0 : LiveRange.Tensor) (steps : List Step), k ≠ 0 → GoodTensors x0 steps → Linked ref none l steps →
+        (if b.spilling then x0.inTarget = false ∧ finalBytes x0 steps = 0
+         else (x0.inTarget = true → x0.size ≤ first.ifm.sizeInBytes) ∧ finalBytes x0 steps ≤ lastOfm l) →
+        ∃ res, LiveRange.extractNpu (cascadeSchedule k x0 steps) LiveRange.Graph.empty ct = .ok res ∧
+          (∀ tk ∈ res.times, tk = ct) ∧
+          (graphUsage res.graph ct : Int) + (if b.spilling then 0 else b.nl ci.start) ≤ ci.memUsage + b.nl ci.start ∧
+          (b.spilling = true → (graphUsage res.graph ct : Int) ≤ limit) := by
+  intro ci hci
+  obtain ⟨l, first, h1, h2, h3, h4, h5, h6⟩ := cascade_estimate_closed_form b ref fb limit st hu h ci hci
+  refine ⟨l, first, h1, h2, h4, h5, ?_⟩
+  intro k ct x0 steps hk hg hl hsz
+  obtain ⟨res, hr, ht, hu'⟩ := extract_cascade k ct hk x0 steps hg
+  have hne : l ≠ [] := by intro e; simp [e] at h3
+  have hcu := chainUsage_first ref l steps x0 hne hl
+  refine ⟨res, hr, ?_, ?_, ?_⟩
+  · intro tk htk; rw [ht] at htk; simp at htk; exact htk.2.symm
+  · rw [h6, hu', hcu, h4]
+    by_cases hs : b.spilling
+    · simp only [hs, ↓reduceIte] at hsz ⊢
+      simp [hsz.1, hsz.2]
+    · simp only [hs, Bool.false_eq_true, ↓reduceIte] at hsz ⊢
+      have : (if x0.inTarget = true then x0.size else 0) ≤ first.ifm.sizeInBytes := by
+        split
+        · next hh => exact hsz.1 hh
+        · omega
+      have := hsz.2
+      omega
+  · intro hs
+    have hlim := dedicated_sram_cascade_within_limit b ref fb limit st hu hs h ci hci
+    rw [h6, hu', hcu] at *
+    simp only [hs, ↓reduceIte] at hsz hlim ⊢
+    simp only [hsz.1, hsz.2, Bool.false_eq_true, ↓reduceIte] at hlim ⊢
+    omega
+
+/-! Non-vacuity: the two convolutions of the witness above with 8-row stripes; feature maps of 8192 / 32768 / 8192 bytes.  The
+live ranges of the cascade need 8192 + 20480 (rolling buffer, not the 32768 bytes of the whole map) + 8192 = 36864 bytes, which
+is exactly `mem_usage`. -/
+
+def nvX0 : LiveRange.Tensor :=
+  { id := 0, eqId := 0, purpose := .other, inTarget := true, size := 8192, shapeEmpty := false, writeProtected := false,
+    format := 0, dtype := 0, consumers := 1, producers := 1, isVariable := false, preBuffer := false }
+def nvX1 : LiveRange.Tensor := { nvX0 with id := 1, eqId := 1, size := 32768 }
+def nvX2 : LiveRange.Tensor := { nvX0 with id := 2, eqId := 2, size := 8192 }
+def nvSteps : List Step := [⟨[], nvX1, 0⟩, ⟨[], nvX2, 20480⟩]
+
+example : GoodTensors nvX0 nvSteps :=
+  ⟨by decide, rfl, by intro s hs; simp [nvSteps] at hs; rcases hs with rfl | rfl <;> exact ⟨rfl, by simp⟩⟩
+
+example : Linked wRefB none [wOp0, wOp1] nvSteps :=
+  .cons none wOp0 [wOp1] _ _ rfl (by intro p h; cases h) (.cons (some wOp0) wOp1 [] _ _ rfl (by intro p h; cases h; rfl) (.nil _))
+
+example : chainUsage true nvX0 nvSteps = 36864 ∧ finalBytes nvX0 nvSteps = 8192 ∧ lastOfm [wOp0, wOp1] = 8192 := by decide
 
 /-! ## (d) the memory snapshot -/
 
